@@ -108,7 +108,13 @@ func (r *runner) oneCase(e TypeEntry, cfgMask int, cfgErr bool) {
 	}
 	ctx, cancel := context.WithTimeout(context.Background(), 20*time.Second)
 	defer cancel()
-	cfg, cerr := rr.Plugin.Configure(ctx, &api.ConfigureRequest{Config: "cfg-" + id, RuntimeName: "rt", RuntimeVersion: "v1", RegistrationTimeout: 5000, RequestTimeout: 2000})
+	// every third case plays an older runtime that does not send its timeouts
+	creq := &api.ConfigureRequest{Config: "cfg-" + id, RuntimeName: "rt", RuntimeVersion: "v1", RegistrationTimeout: 5000, RequestTimeout: 2000}
+	if r.seq%3 == 0 {
+		creq.RegistrationTimeout, creq.RequestTimeout = 0, 0
+		what["runtime_sends_timeouts"] = false
+	}
+	cfg, cerr := rr.Plugin.Configure(ctx, creq)
 
 	// expected subscription
 	wantFail := false
